@@ -91,7 +91,14 @@ high_rom_bus.map("2", (0x7E, 0x7F), (0, 0xFFFF), mask=0x1_0000, writeable=True)
 
 high_rom_bus.editable = False
 
-BUS_MAPPING = {RomType.low_rom: low_rom_bus, RomType.high_rom: high_rom_bus}
+low_rom_2_bus = Bus("low_rom_2_default_mapping")
+
+low_rom_2_bus.map("1", (0x80, 0xEF), (0x8000, 0xFFFF), mask=0x8000, mirror_bank_range=(0x00, 0x6F))
+low_rom_2_bus.map("2", (0x7E, 0x7F), (0, 0xFFFF), mask=0x1_0000, writeable=True)
+
+low_rom_2_bus.editable = False
+
+BUS_MAPPING = {RomType.low_rom: low_rom_bus, RomType.low_rom_2: low_rom_2_bus, RomType.high_rom: high_rom_bus}
 
 
 class Resolver:
